@@ -22,6 +22,7 @@ type obs struct {
 	prim    string     // primitive destination value
 	tx      *gorm.DB   // the handle the finisher returned (nil for Rows)
 	root    *gorm.DB   // the plain gorm handle of the environment (ScanRows)
+	hook    func()     // FindInBatches only: called inside the callback after the batch was recorded
 }
 
 const (
@@ -457,6 +458,9 @@ var paths = []pathDef{
 			o.batches = append(o.batches, rowKeys(d))
 			o.nums = append(o.nums, n)
 			o.cbRA = append(o.cbRA, tx.RowsAffected)
+			if o.hook != nil {
+				o.hook()
+			}
 			return nil
 		})
 		o.ra, o.err = tx.RowsAffected, tx.Error
@@ -476,6 +480,9 @@ var paths = []pathDef{
 			o.batches = append(o.batches, b)
 			o.nums = append(o.nums, n)
 			o.cbRA = append(o.cbRA, tx.RowsAffected)
+			if o.hook != nil {
+				o.hook()
+			}
 			return nil
 		})
 		o.ra, o.err = tx.RowsAffected, tx.Error
